@@ -39,6 +39,31 @@ def _archive_objects(f):
     return out
 
 
+def member_reads(arch, f, readers):
+    """-> (read sites of `f`, {id(site): the expression naming the member that is read}).  A read site is a call `A.<reader>(V, ..)`
+    on the archive object, or a call `h(.., V, ..)` of a local helper whose body does `X.<reader>(P, ..)` on its parameter P."""
+    reads = [n for n in ast.walk(f) if isinstance(n, ast.Call) and isinstance(n.func, ast.Attribute) and n.func.attr in readers]
+    arch_objs = _archive_objects(f)
+    if arch_objs:      # `fh.read()` on the stream that `zf.open(V)` returned is not a member read: keep the calls on the archive object
+        reads = [n for n in reads if isinstance(n.func.value, ast.Name) and n.func.value.id in arch_objs]
+    arg_of = {id(n): n.args[0] for n in reads if n.args}
+    for c in ast.walk(f):
+        h = arch.functions.get(c.func.id) if isinstance(c, ast.Call) and isinstance(c.func, ast.Name) else None
+        if h is None or h is f:
+            continue
+        params = [a.arg for a in h.args.posonlyargs + h.args.args]
+        for r in ast.walk(h):
+            if isinstance(r, ast.Call) and isinstance(r.func, ast.Attribute) and r.func.attr in readers and r.args and isinstance(r.args[0], ast.Name) \
+                    and r.args[0].id in params and isinstance(r.func.value, ast.Name) and r.func.value.id in params:
+                k = params.index(r.args[0].id)
+                actual = c.args[k] if k < len(c.args) else next((kw.value for kw in c.keywords if kw.arg == r.args[0].id), None)
+                if actual is not None:
+                    reads.append(c)
+                    arg_of[id(c)] = actual
+                    break
+    return reads, arg_of
+
+
 def _seen_through(arch, f, test, branch, size_attrs):
     """Names V for which `test` evaluating to `branch` implies `V.<size attr> <= limit`: the guard up to negation / De Morgan /
     flipped comparison / single-assignment local alias / a local predicate helper (`f(.., V.size)` whose body decides
@@ -59,12 +84,10 @@ def member_size_guard(prop, repo, fn_name, readers, size_attrs, label="member-si
     if f is None:
         return ground_obligation(oid, False, "function missing", ARCH, definite=False), None
     reads = [n for n in ast.walk(f) if isinstance(n, ast.Call) and isinstance(n.func, ast.Attribute) and n.func.attr in readers]
-    arch_objs = _archive_objects(f)
-    if arch_objs:      # `fh.read()` on the stream that `zf.open(V)` returned is not a member read: keep the calls on the archive object
-        reads = [n for n in reads if isinstance(n.func.value, ast.Name) and n.func.value.id in arch_objs]
+    reads, arg_of = member_reads(arch, f, readers)
     if not reads:
         return ground_obligation(oid, False, f"no {'/'.join(readers)} call found", ARCH, definite=False), None
-    odd = [n for n in reads if not (n.args and isinstance(n.args[0], ast.Name))]
+    odd = [n for n in reads if not isinstance(arg_of.get(id(n)), ast.Name)]
     if odd:
         return ground_obligation(oid, False, f"line {odd[0].lineno}: `{ast.unparse(odd[0])}` does not read through the member object that was size-checked", ARCH,
                                  definite=False), None
@@ -75,7 +98,7 @@ def member_size_guard(prop, repo, fn_name, readers, size_attrs, label="member-si
             return [("within-limit", w) for w in _seen_through(arch, f, test, branch, size_attrs)]
         return [("within-limit", v)] if v is not None and branch is False else []
 
-    mf = MustFacts(gen_cond=gen_cond, need=lambda n: [(("within-limit", n.args[0].id), f"line {n.lineno}")] if any(n is r for r in reads) else [],
+    mf = MustFacts(gen_cond=gen_cond, need=lambda n: [(("within-limit", arg_of[id(n)].id), f"line {n.lineno}")] if any(n is r for r in reads) else [],
                    kill_names=lambda fact: [fact[1]])
     res = mf.run(f)
     bad = [r for r in res if not r.ok]
